@@ -378,6 +378,48 @@ func fieldIndexByName(t reflect.Type, name string) []int {
 		}
 	}
 
+	// Go's depth rule for promoted fields: the shallowest embedded struct that
+	// declares the name wins (breadth first), not the first in declaration order.
+	type embedded struct {
+		t    reflect.Type
+		path []int
+	}
+	declares := func(f reflect.StructField) bool {
+		if !validGoStructName(f.Name) {
+			return false
+		}
+		if a := strings.SplitN(f.Tag.Get("json"), ",", 2); a[0] != "" {
+			if a[0] == "-" {
+				return false
+			}
+			if a[0] == name {
+				return true
+			}
+		}
+		return f.Name == name
+	}
+	embeds := func(e embedded) []embedded {
+		var out []embedded
+		for i := range e.t.NumField() {
+			if f := e.t.Field(i); validGoStructName(f.Name) && f.Anonymous && f.Type.Kind() == reflect.Struct {
+				out = append(out, embedded{f.Type, append(append([]int{}, e.path...), i)})
+			}
+		}
+		return out
+	}
+	for level := embeds(embedded{t: t}); len(level) > 0; {
+		var next []embedded
+		for _, e := range level {
+			for i := range e.t.NumField() {
+				if declares(e.t.Field(i)) {
+					return append(append([]int{}, e.path...), i)
+				}
+			}
+			next = append(next, embeds(e)...)
+		}
+		level = next
+	}
+
 	for i := range t.NumField() {
 		f := t.Field(i)
 
